@@ -15,10 +15,12 @@ import glob
 import importlib
 import json
 import os
+import re
 import sys
 import traceback
 
 from . import common
+from .parallel import WorkerError
 from .report import Broken, Check, from_jsonable
 
 
@@ -86,6 +88,20 @@ def main(argv=None):
         traceback.print_exc()
         tb = traceback.extract_tb(e.__traceback__)
         where = "%s:%s" % (os.path.basename(tb[-1].filename), tb[-1].name) if tb else "?"
+        # WHO raised?  If the innermost frame is code of the implementation, the implementation
+        # answered a call of the check with an exception nobody expected: reported as a violation.
+        # If the innermost frame is the check's own code (an attribute the check assumed, a shape it
+        # did not foresee), the CHECK is at fault: BROKEN (exit 2), never a violation claim.
+        inner = tb[-1].filename if tb else ""
+        text = str(e)
+        if isinstance(e, WorkerError):
+            files = re.findall(r'File "([^"]+)", line', text)
+            inner = files[-1] if files else inner
+        verif_root = os.path.dirname(os.path.dirname(os.path.abspath(__file__)))
+        if os.path.abspath(inner).startswith(verif_root + os.sep):
+            print("BROKEN: %s: an exception was raised by the check's own code (%s): %s"
+                  % (pid, inner, text.strip().splitlines()[-1] if text.strip() else type(e).__name__))
+            sys.exit(2)
         chk.fail(("unguarded-exception", type(e).__name__, where), None,
                  observed="%s: %s" % (type(e).__name__, e), expected="no exception",
                  msg="exception escaped the check; re-run the check to reproduce")
